@@ -132,6 +132,12 @@ Theorem c17_clone_independent : forall lenlim limit r sched,
 Proof. exact clone_independent. Qed.
 Print Assumptions c17_clone_independent.
 
+(** ... and at every step of the schedule both records show what two independent values would show. *)
+Theorem c17_clone_trace_independent : forall lenlim limit r sched,
+  clone_trace lenlim limit r sched = ptrace lenlim limit r r sched.
+Proof. exact clone_trace_independent. Qed.
+Print Assumptions c17_clone_trace_independent.
+
 (** The struct copy alone (overflow slice not cloned) does not have this property. *)
 Theorem c17_shallow_clone_refuted :
   exists lenlim limit r o,
